@@ -1,5 +1,8 @@
 import PV.Model.Sexp
 import PV.Model.Unify
+import PV.Model.UnifyTable
+import PV.Generated.Unifier
+import PV.Generated.Traversal
 /- Driver operations for the unifier model (C16). -/
 namespace PV.Driver
 open PV PV.Unify
@@ -8,6 +11,26 @@ def amapToSexp (m : AMap) : Sexp :=
   .list (m.map fun (k, v) => .list [Sexp.str k, v.toSexp])
 
 def urecToSexp (r : URec) : Sexp := amapToSexp r.lmap
+
+mutual
+/-- no sum / product / other n-ary node of the tree has more than 8 operands (the iteration order
+of CPython's small-int sets is ascending only below 8) -/
+def c16WidthOk : Expr → Bool
+  | .nary _ cs => cs.length ≤ 8 && c16WidthOkL cs
+  | .bin _ a b => c16WidthOk a && c16WidthOk b
+  | .un _ a => c16WidthOk a
+  | .cmp _ a b => c16WidthOk a && c16WidthOk b
+  | .ite c t e => c16WidthOk c && c16WidthOk t && c16WidthOk e
+  | .call f as => c16WidthOk f && c16WidthOkL as
+  | .subscript a i => c16WidthOk a && c16WidthOk i
+  | .lookup a _ => c16WidthOk a
+  | .tuple cs => c16WidthOkL cs
+  | .list cs => c16WidthOkL cs
+  | _ => true
+def c16WidthOkL : List Expr → Bool
+  | [] => true
+  | c :: cs => c16WidthOk c && c16WidthOkL cs
+end
 
 /-- `(unify (cands…) pattern target)` →
 `((record…) (law…) guards)`: the records (lmap, insertion order) in the order the code yields them,
@@ -23,6 +46,18 @@ def handleUnify : Sexp → Option Sexp
         pure (.list [.list (rs.map urecToSexp),
           .list (rs.map fun r => Sexp.ofBool (acEquiv (inst r.lmap p) t)),
           Sexp.ofBool (guards cands p t)])
+      else pure (Sexp.mk "noclaim" [])
+  | .list [.atom "unify-table", .list cands, p, t] => do
+      -- the table interpreter (PV/Model/UnifyTable.lean) run on the table REGENERATED from the
+      -- source of unifier.py: `(ok ((lmap) (rmap))…)`, `(raises Exc)` or `(stuck)`
+      let cands ← cands.mapM Sexp.text
+      let p ← Expr.ofSexp? p
+      let t ← Expr.ofSexp? t
+      if c16WidthOk t then
+        match c16UnifyT Generated.c04Classes Generated.c16Unifier 400 cands p t with
+        | .ok rs => pure (Sexp.mk "ok" (rs.map fun r => .list [amapToSexp r.lmap, amapToSexp r.rmap]))
+        | .raises x => pure (Sexp.mk "raises" [.atom x])
+        | .stuck => pure (Sexp.mk "stuck" [])
       else pure (Sexp.mk "noclaim" [])
   | .list [.atom "acequiv", a, b] => do
       let a ← Expr.ofSexp? a
